@@ -767,6 +767,7 @@ impl VirtualFileSystem for Memfs {
 
             // Seek to the end for appending
             clone.seek(SeekFrom::End(0))?;
+            clone.append = Some(clone.data.len());
             Ok(Box::new(clone))
         } else {
             Err(PathError::does_not_exist(path).into())
@@ -2045,6 +2046,7 @@ impl VirtualFileSystem for Memfs {
             data: vec![],
             path: Some(path),
             fs: Some(self.clone()),
+            append: None,
         }))
     }
 
@@ -2070,8 +2072,14 @@ impl VirtualFileSystem for Memfs {
     /// assert_vfs_read_all!(vfs, &file, "foobar 1".to_string());
     /// ```
     fn write_all<T: AsRef<Path>, U: AsRef<[u8]>>(&self, path: T, data: U) -> RvResult<()> {
-        let mut f = self.write(path)?;
-        f.write_all(data.as_ref())?;
+        let mut guard = self.write_guard();
+
+        // Create the file if needed and replace its data within a single critical section
+        let path = self._abs(&guard, path)?;
+        self._add(&mut guard, MemfsEntry::opts(&path).file().build())?;
+        if let Some(f) = guard.get_file_mut(&path) {
+            f.data = data.as_ref().to_vec();
+        }
         Ok(())
     }
 
